@@ -1,5 +1,6 @@
 import Momo.Proof.ColumnsRows
 import Momo.Proof.TrEqMisc2Col
+import Momo.Proof.TrEqWave2Col
 /-!
 # C18 — Column lists give each column its own aligned slot and know only their columns
 
@@ -470,5 +471,17 @@ theorem C18_lookup_translated (c : Cfg) (param : Nat) (a : Array Nat) (code : Na
 
 example : (Tr.col_GetVertices 4 8 33 0, Tr.col_GetVertices 4 8 49 0, Tr.col_GetVertices 4 8 50 0) = ((1, 2), (1, 3), (2, 3)) := by decide
 example : Tr.um_Ceil 13 8 = 16 ∧ Tr.col_addEdges_advance 4 8 16 2 = (20, 8) ∧ Tr.col_mutBytes 20 = 3 := by decide
+
+/-! #### second wave (tools/trspecs/Wave2.py → `Momo/Translated/Wave2.lean`; equivalences: `Proof/TrEqWave2Col.lean`) -/
+
+/-- **`pvGetOffset` as a whole, from the header text**: the two reads `mAddends[vertices.first]`, `mAddends[vertices.second]` and
+their wrapping `size_t` sum, translated as one function from DataColumn.h and fed with the translated `GetVertices`, is the
+lookup `getOffsetWith` the layout theorems are about. -/
+theorem C18_getOffset_translated (c : Cfg) (param : Nat) (a : Array Nat) (code : Nat) (hL : c.L < 64) (hcode : code < 2 ^ 64) :
+    Tr.col_pvGetOffset (fun i => a.getD i 0) (Tr.col_GetVertices c.L c.codeBytes code param).1
+        (Tr.col_GetVertices c.L c.codeBytes code param).2 = getOffsetWith c param a code :=
+  TrEq.tr_col_pvGetOffset c param a code hL hcode
+
+example : Tr.col_pvGetOffset (fun i => if i = 1 then 2 ^ 63 else 2 ^ 63 + 24) 1 2 = 24 := by decide
 
 end Momo.Col
